@@ -218,6 +218,15 @@ func runCheck(prog *Program, prop, tier, verif, only string, loadSecs float64, t
 		if r.Obl.Vacuity || r.Status == "unsat" || r.Status == "sat" {
 			continue
 		}
+		isKnown := false
+		for _, k := range known {
+			if k.Kind == "finding" && k.Property == prop && k.Oblig == r.Obl.Name {
+				isKnown = true
+			}
+		}
+		if isKnown {
+			continue // a listed finding is expected to fail: no second attempt
+		}
 		results[i] = solveOne(r.VC, r.Obl, filepath.Join(work, "smt"), 3*timeout, false)
 	}
 
